@@ -37,8 +37,11 @@ bool cbor_array_set(cbor_item_t* item, size_t index, cbor_item_t* value) {
 bool cbor_array_replace(cbor_item_t* item, size_t index, cbor_item_t* value) {
   if (index >= item->metadata.array_metadata.end_ptr) return false;
   /* We cannot use cbor_array_get as that would increase the refcount */
-  cbor_intermediate_decref(((cbor_item_t**)item->data)[index]);
+  cbor_item_t* replaced = ((cbor_item_t**)item->data)[index];
+  /* Take the new reference first: the replaced member may be `value` itself,
+   * or may hold the only other reference to it */
   ((cbor_item_t**)item->data)[index] = cbor_incref(value);
+  cbor_intermediate_decref(replaced);
   return true;
 }
 
